@@ -60,8 +60,21 @@ func lexCase(c *explore.Ctx, s *explore.SubStats, text string, conformance, posi
 		return
 	}
 	if m.Undecided {
-		s.Undecided++
-		return
+		if !(positions && !conformance && m.ValuesOnly) {
+			s.Undecided++
+			return
+		}
+		// only string values are undecided (surrogate escapes): extents and positions are judged, values are not
+		for i := range m.Tokens {
+			if m.Tokens[i].Kind == "String" {
+				m.Tokens[i].Value = ""
+			}
+		}
+		for i := range im.Toks {
+			if im.Toks[i].Kind == "String" {
+				im.Toks[i].Value = ""
+			}
+		}
 	}
 	s.Validated++
 	if len(m.Tokens) > 0 {
